@@ -275,7 +275,19 @@ def r14e(ctx):
     ctx.check(ok, "R14e", f"{EV}.get_from_level", "level k is obtained by k rounds of get_children starting from the roots", "", key_detail="levels")
 
 
+def r14f(ctx):
+    repo = ctx.repo
+    ctx.rule("R14f", "CTW inelasticity: the low-y region is chosen with probability 0.128 sin(-0.197 (eps - 21.8)) (CTW 2011, eq. 16) -- compared as drawn, so a negative value means never", expected=1, kind="N")
+    fn = repo.member(CTW, "choose_inelasticity")
+    st = [n for n in ast.walk(fn) if isinstance(n, ast.Compare) and any(is_call(c_, func="np.random.rand") for c_ in ast.walk(n))]
+    want = NF().nf(parse_expr("0.128*np.sin(-0.197*(eps-21.8))"))
+    ok = len(st) >= 1 and isinstance(st[0].ops[0], ast.Lt) and NF().nf(st[0].comparators[0]).equals(want)
+    ctx.check(ok, "R14f", f"{CTW}.choose_inelasticity", "rand() < 0.128*sin(-0.197*(eps-21.8))", u(st[0]) if st else "no comparison of a random draw", key_detail="low-y probability",
+              loc=ctx.loc("pyrex.particle", st[0] if st else fn))
+
+
 def run(ctx):
+    ctx.guard(r14f)
     ctx.guard(r14a)
     ctx.guard(r14b)
     ctx.guard(r14c)
@@ -285,6 +297,7 @@ def run(ctx):
 
 SELFTEST = {
     "faults": [
+        {"name": "low-y probability made non-negative", "file": "pyrex/particle.py", "old": "0.128*np.sin(-0.197*(eps-21.8))", "new": "0.128*abs(np.sin(0.197*(eps-21.8)))", "rule": "R14f"},
         {"name": "one constant changed in one CTW table", "file": "pyrex/particle.py", "old": "                c_2 = -6.448", "new": "                c_2 = -6.484", "rule": "R14a"},
         {"name": "em_frac = y for CC e", "file": "pyrex/particle.py", "old": "                em_frac = 1 - self.inelasticity", "new": "                em_frac = self.inelasticity", "rule": "R14c"},
         {"name": "_all extended but not _children", "file": "pyrex/particle.py", "old": "        self._children.extend([[] for _ in indices])\n", "new": "", "rule": "R14e"},
